@@ -28,9 +28,11 @@ def config(name, rng, tier, seed=0):
         base["cases"] = [_lossmin(rng.choice(["fast_se", "se"]), mode_weight=rng.choice(["inverse_sample_covariance", "inverse_unbiased_covariance"]), max_iteration=20),
                          _lossmin("fast_se", mode_weight="inverse_sample_covariance", para=False, max_iteration=20)]
         base["parallel_mode"] = rng.choice([{"per_estimator_unit": 2, "per_estimator_execution": 3}, {"per_sample_unit": 2, "per_estimator_execution": 2},
-                                            {"per_sample_unit": 2, "per_data_generation": 2, "per_estimator_execution": 4}])
+                                            {"per_sample_unit": 2, "per_data_generation": 2, "per_estimator_execution": 4}, {"per_estimator_unit": 2, "per_estimator_execution": 2}])
         base["n_sample"] = 2
-        base["n_rep"] = 4
+        # more repetitions than twice the number of threads: a thread can still be busy with an early repetition while the
+        # others have gone through several later ones
+        base["n_rep"] = 6 if base["parallel_mode"]["per_estimator_execution"] == 2 else 4
         base["num_data"] = [100, 1000]
         return base
     if name == "batching_weighted_loss":
